@@ -280,7 +280,7 @@ func (d *Document) getOrCreateNumbering(config *ListConfig) string {
 	manager := getNumberingManager()
 
 	// 生成抽象编号键
-	abstractKey := fmt.Sprintf("%s_%s_%d", config.Type, config.BulletSymbol, config.IndentLevel)
+	abstractKey := fmt.Sprintf("%s_%s_%d_%d", config.Type, config.BulletSymbol, config.IndentLevel, config.StartNumber)
 
 	// 检查是否已存在抽象编号
 	var abstractNum *AbstractNum
